@@ -46,8 +46,8 @@ func enumerate(c *lib.Ctx, maxLen int) []string {
 				}
 			}
 			cands := []string{string(b)}
-			if c.Thorough() {
-				cands = append(cands, string(prefix)) // the model's own representative too
+			if c.Thorough() && len(prefix) < maxLen {
+				cands = append(cands, string(prefix)) // the model's own representative too (below the longest length)
 			}
 			for _, s := range cands {
 				if !seen[s] {
